@@ -515,8 +515,11 @@ class EvolvableCNN(EvolvableModule):
                 self.input_shape,
                 kernel_size,
             )
-        else:
+        elif "add_layer" in self.mutation_methods:
             return self.add_layer()
+        else:
+            # Layer mutations are disabled (e.g. for the encoder of an EvolvableNetwork)
+            return self.add_channel()
 
         return {"hidden_layer": hidden_layer, "kernel_size": new_kernel_size}
 
